@@ -275,6 +275,29 @@ def rule_pep701(case, sig, extra, match):
         ('f-string expression part cannot include a backslash' in sig[1] or 'f-string: expressions nested too deeply' in sig[1])
 
 
+def rule_global_comprehension_target(case, sig, extra, match):
+    """C12-F15: the iteration variable of a comprehension lives in the comprehension's own scope; parso counts it
+    as an assignment in the enclosing scope ('assigned to before global declaration')."""
+    text, v, m = extra
+    mm = re.search(r"name '(\w+)' is assigned to before (global|nonlocal) declaration", sig[1] if len(sig) > 1 else '')
+    if not mm:
+        return False
+    name = mm.group(1)
+    for cf in _names_in(m, ('sync_comp_for', 'comp_for')):
+        sync = cf if cf.type == 'sync_comp_for' else cf.children[-1]
+        if sync.type != 'sync_comp_for':
+            continue
+        target = sync.children[1]
+        stack = [target]
+        while stack:
+            n = stack.pop()
+            if n.type == 'name' and n.value == name:
+                return True
+            if hasattr(n, 'children'):
+                stack.extend(n.children)
+    return False
+
+
 def rule_await_36(case, sig, extra, match):
     """C12-F6: grammar 3.6 treats async/await as keywords; CPython 3.6 still accepts them as identifiers
     (documented upstream limitation), so e.g. a call `await ()` is judged as an await expression."""
@@ -288,7 +311,7 @@ def rule_debug_global(case, sig, extra, match):
         sig[1] == "SyntaxError: name '__debug__' is used prior to global declaration"
 
 
-RULES = {'c12_continue_finally_loop': rule_continue_finally_loop, 'c12_async_comprehension': rule_async_comprehension,
+RULES = {'c12_global_comprehension_target': rule_global_comprehension_target, 'c12_continue_finally_loop': rule_continue_finally_loop, 'c12_async_comprehension': rule_async_comprehension,
          'c12_walrus_argument': rule_walrus_argument, 'c12_nested_format_spec': rule_nested_format_spec,
          'c12_pep701': rule_pep701, 'c12_global_type_params': rule_global_type_params, 'c12_await_36': rule_await_36, 'c12_debug_global': rule_debug_global, 'c12_formfeed_indent': rule_formfeed_indent, 'c12_global_lambda': rule_global_lambda,
          'c12_global_import': rule_global_import, 'c12_global_annotation_module': rule_global_annotation_module,
